@@ -133,8 +133,7 @@ def run(ctx):
             vh.call(op="drop_db", db=db)
             if i < n_lsp:
                 lsp_level(ctx, ws, model, order)
-            if i < 3:
-                ctx.sample({"spec": ws.spec, "files": {k: v for k, v in list(ws.files.items())[:3]}})
+            ctx.sample({"spec": ws.spec, "files": {k: v for k, v in list(ws.files.items())[:3]}})
             ctx.count("chains")
             shutil.rmtree(root, ignore_errors=True)
     finally:
